@@ -14,10 +14,29 @@ pub fn stub_random_state() -> std::collections::hash_map::RandomState {
     unsafe { std::mem::transmute::<[u64; 2], std::collections::hash_map::RandomState>([1, 2]) }
 }
 
+// Formatting is not the subject here and is what makes the goto program explode (float-to-decimal
+// tables etc. are statically reachable from the verbose branches).  With these stubs any *attempt* to
+// format sets a ghost flag, which the silence harness asserts to be false.
+static mut FORMAT_CALLS: u32 = 0;
+pub fn stub_fmt_write(_out: &mut dyn core::fmt::Write, _args: core::fmt::Arguments<'_>) -> core::fmt::Result {
+    unsafe {
+        FORMAT_CALLS += 1;
+    }
+    Ok(())
+}
+pub fn stub_fmt_format(_args: core::fmt::Arguments<'_>) -> String {
+    unsafe {
+        FORMAT_CALLS += 1;
+    }
+    String::new()
+}
+
 /// verbose = false: none of the four print entry points writes a byte, whatever the state
 #[kani::proof]
 #[kani::unwind(5)]
 #[kani::stub(std::collections::hash_map::RandomState::new, stub_random_state)]
+#[kani::stub(core::fmt::write, stub_fmt_write)]
+#[kani::stub(alloc::fmt::format, stub_fmt_format)]
 pub fn c20_silent() {
     let mut info = crate::verdict::any_info();
     info.status = crate::verdict::any_status();
@@ -36,6 +55,7 @@ pub fn c20_silent() {
     assert!(info.print_status(&st).is_ok());
     assert!(info.print_footer(&st).is_ok());
     assert!(dh::info_buffer_len(&info) == Some(0), "nothing_written_when_verbose_is_off");
+    assert!(unsafe { FORMAT_CALLS } == 0, "nothing_is_even_formatted_when_verbose_is_off");
     kani::cover!(info.status == SolverStatus::Solved && info.iterations == 7);
 }
 
@@ -63,6 +83,8 @@ impl std::io::Write for W {
 /// the sink accepts everything; get_print_buffer works only for the buffer target
 #[kani::proof]
 #[kani::unwind(8)]
+#[kani::stub(core::fmt::write, stub_fmt_write)]
+#[kani::stub(alloc::fmt::format, stub_fmt_format)]
 pub fn c20_route() {
     let a: [u8; 3] = kani::any();
     let b: [u8; 2] = kani::any();
